@@ -134,7 +134,7 @@ pub trait TyVisitor {
     fn visit<T: TypeInfo + ?Sized + 'static>(self) -> Self::Out;
 }
 
-pub const N_SHAPES: u8 = 49;
+pub const N_SHAPES: u8 = 51;
 const DELTAS: [usize; 3] = [0, 1, 5];
 
 fn with_shape_jk<const J: usize, const K: usize, V: TyVisitor>(shape: u8, v: V) -> V::Out {
@@ -184,6 +184,9 @@ fn with_shape_jk<const J: usize, const K: usize, V: TyVisitor>(shape: u8, v: V) 
         42 => v.visit::<std::collections::BTreeSet<N<J>>>(),
         43 => v.visit::<Cow<'static, N<J>>>(),
         44..=48 => with_twin(shape, v),
+        // array lengths beyond 16 bits (the elements are zero-sized, so the type costs nothing)
+        49 => v.visit::<[N<J>; 65537]>(),
+        50 => v.visit::<[A<J>; 4_000_000_000]>(),
         _ => v.visit::<u64>(),
     }
 }
@@ -295,6 +298,7 @@ pub enum Ty {
     Option(Box<Ty>),
     Result(Box<Ty>, Box<Ty>),
     Arr3(Box<Ty>),
+    ArrN(u32, Box<Ty>),
     Tup(Vec<Ty>),
     Map(Box<Ty>, Box<Ty>),
     Set(Box<Ty>),
@@ -365,6 +369,8 @@ pub fn ty_of(t: &Target) -> Ty {
         46 => Ty::Option(b(Ty::Vec(b(Ty::Twin(0))))),
         47 => Ty::Option(b(Ty::Vec(b(Ty::Twin(1))))),
         48 => Ty::Box(b(Ty::Twin(0))),
+        49 => Ty::ArrN(65537, b(x())),
+        50 => Ty::ArrN(4_000_000_000, b(Ty::A(j))),
         _ => Ty::U64,
     }
 }
@@ -529,6 +535,7 @@ pub fn desc(id: &Ident, spec: &GraphSpec) -> Desc {
                 docs: Some(vec![]),
             },
             Ty::Arr3(x) => plain(DDef::Array(3, (**x).clone())),
+            Ty::ArrN(n, x) => plain(DDef::Array(*n, (**x).clone())),
             Ty::Tup(xs) => plain(DDef::Tuple(xs.iter().filter(|x| !is_phantom(x)).cloned().collect())),
             Ty::Map(k, v) => Desc {
                 path: vec![s("BTreeMap")],
@@ -669,7 +676,8 @@ pub mod gen {
                 4 => 9u8..26,
                 2 => 26u8..38,
                 2 => 38u8..44,
-                1 => 44u8..N_SHAPES,
+                1 => 44u8..49,
+                1 => 49u8..N_SHAPES,
             ],
             0u8..NN as u8,
             0u8..3,
